@@ -532,7 +532,7 @@ fn run_history(i: u64, cfg: Cfg, rng: rand_chacha::ChaCha20Rng, r: &mut Reporter
         if let Some((a, left, src)) = wd.followup {
             // send-max right after a wallet shielding transaction was mined, then one block deeper, ...
             proposal_op(&mut wd, r, d);
-            r.count("sendmax_followups_of_a_mined_shielding_transaction", 1);
+            r.count(if left % 2 == 0 { "sendmax_followups_of_a_mined_shielding_transaction" } else { "transfer_followups_of_a_mined_shielding_transaction" }, 1);
             wd.followup = if left > 1 { Some((a, left - 1, src)) } else { None };
             let n = wd.rng.gen_range(1..3);
             wd.mine(n);
@@ -622,7 +622,7 @@ fn run_history(i: u64, cfg: Cfg, rng: rand_chacha::ChaCha20Rng, r: &mut Reporter
                     if wd.rng.gen_bool(0.9) {
                         wd.sync();
                         if let Some((a, src)) = wd.shield_just_mined.take() {
-                            wd.followup = Some((a, 4, src));
+                            wd.followup = Some((a, 6, src));
                         }
                     }
                 }
